@@ -15,7 +15,8 @@ TRUSTED = ["assumed, stress-tested: std::sync::Mutex critical sections, crossbea
            "io::stdout()/stderr() line locking"]
 ASSUMPTIONS = ["real thread interleavings are sampled by the OS scheduler on 16 cores, not enumerated"]
 RULE = ("one run per case: N in 2..8 threads, each logging 30-200 lines T<i>-<k>-<padding> of lengths around the buffer and message "
-        "capacities, through mode Direct / BufferDontFlush(c) / BufferAndFlush(c, 20 ms) / Async{pool 1-3, message capacity 8-64} (with "
+        "capacities (thread 0: the single letters A..Z, so that lines consisting of F or S alone occur), "
+        "through mode Direct / BufferDontFlush(c) / BufferAndFlush(c, 20 ms) / Async{pool 1-3, message capacity 8-64} (with "
         "and without flusher), to a file with size rotation (all namings, limits 64-2000 bytes) or to stdout / stderr; after shutdown "
         "the output is read in reader order and merge-checked; non-trivial = every case (at least two threads and a rotation or a "
         "buffer smaller than the output); distinct = distinct case text")
